@@ -59,4 +59,20 @@ func init() {
 			{ID: "R03.7", Title: "the parser is purely constructive: grouping never depends on the node kind of an already parsed operand (parentheses are honoured)", Floor: 2, Run: ruleR037},
 		},
 	})
+	register(&Property{
+		ID:        "C04",
+		Technique: "structured must-advance analysis of every scanner loop with sentinel agreement, call-graph cycle check of the recursive descent (every cycle consumes a token), who-may-call check of the recovering optimizer entry, reachability of explicit panics, return-discipline check on CFG guards",
+		Explanation: "Decides structural totality conditions of tokenizer and parser: every rune level loop advances the input on every path back to its head and has an exit that is taken on the end-of-input sentinel peek really returns; " +
+			"the recursive descent has no cycle of calls that consumes no token (except the well founded op→op+1 edge); folding panics are contained (R02.5); no explicit panic is reachable from Parse inside package parser2; " +
+			"every return of a parser/generator function hands back a result or a non-nil error, never neither. Not decided: index/bounds panics, running time, Go stack depth for deeply nested input.",
+		Assumptions: []string{"host supplied number/identifier Matchers accept the rune they announced (the default matchers are checked by R04.6)", "operator spellings contain no NUL rune"},
+		Rules: []*Rule{
+			{ID: "R04.1", Title: "scanner loops: progress on every path back to the head, exit on the end-of-input sentinel", Floor: 12, Run: ruleR041},
+			{ID: "R04.2", Title: "parser recursion consumes: no cycle of parser calls without a consumed token", Floor: 1, Run: ruleR042},
+			{ID: "R04.3", Title: "folding panics are contained (= R02.5)", Floor: 10, Run: ruleR025},
+			{ID: "R04.4", Title: "no explicit panic reachable from Parser.Parse inside package parser2", Floor: 1, Run: ruleR044},
+			{ID: "R04.6", Title: "default matchers: the start test implies the continuation predicate (symbolic implication over predicate atoms)", Floor: 2, Run: ruleR046},
+			{ID: "R04.5", Title: "result discipline: (result, nil) or (nil, non-nil error), never (nil, nil)", Floor: 90, Run: ruleR045},
+		},
+	})
 }
